@@ -1036,8 +1036,8 @@ def derivative_curve(obj):
     pkl = helpers.curve_deriv_cpts(obj.dimension, obj.degree, obj.knotvector, obj.ctrlpts,
                                           rs=(0, obj.ctrlpts_size - 1), deriv_order=1)
 
-    # Generate the derivative curve
-    curve = obj.__class__()
+    # Generate the derivative curve (it keeps the parametrization of the input: no knot vector normalization)
+    curve = obj.__class__(normalize_kv=False)
     curve.degree = obj.degree - 1
     curve.ctrlpts = pkl[1][0:-1]
     curve.knotvector = obj.knotvector[1:-1]
